@@ -5,6 +5,10 @@ import Qryn.Gen.Params
 import Qryn.Proofs.PlanClosed
 import Qryn.Proofs.PlanClosedMetric
 import Qryn.Proofs.PlanClosedTraceQL
+import Qryn.Proofs.SelectorClosed
+import Qryn.Proofs.Leaf
+import Qryn.Proofs.JsonParserClosed
+import Qryn.Gen.GrammarFields
 /-! # C10 — request strings can never change the structure of SQL sent to ClickHouse
 
 Property theorems only. Model: `Qryn.Sql.quote` (= `StringVal.String`, table regenerated from
@@ -226,6 +230,79 @@ theorem plan_closed_traceql_values (c : TraceQL.Ctx) (hc : TraceQL.CtxOK c) (kvT
   have hw := TraceQL.wf_planValues c hc kvTable hkv key script X h
   ⟨closed_fragments_partial _ hw, render_structure_invariant_sel _ hw⟩
 
+
+/-! ## Every leaf is one literal -/
+
+/-- **leaf_single_literal.** In ANY statement whose template is well formed for its leaves (every theorem
+    `plan_closed_…` / `closed_fragments…` establishes that), each string leaf `s` — wherever it stands — is read by the
+    lexer as exactly one string literal that decodes to `s`: after the events of the text before the leaf come the
+    opening of a literal, exactly the bytes of `s`, and the close of the literal. "The user's bytes occur only inside
+    single string literals that decode to the intended value." -/
+theorem leaf_single_literal (pre post : List Seg) (s : Bytes) (h : safeSegs .normal (pre ++ .str s :: post) = true) :
+    ∃ rest, lexEv (renderSegs (pre ++ .str s :: post)) =
+      (runSegs .normal pre).2 ++ openEv (runSegs .normal pre).1 ++ s.map .sByte ++ .sClose :: rest :=
+  leaf_events pre post s h
+
+/-! ## The renderers that produce bytes directly: Prometheus matcher selection, raw-sample scan, Pyroscope selector -/
+
+/-- **fpquery_closed.** `fingerprintsQuery` (PromQL label matchers → the `fp_sel` sub-query): for every table name that is
+    closed text and EVERY list of matchers the planner accepts, the rendered text is a segment list
+    (`render = renderSegs segs`) that is well formed for its leaves, so label names, values and (anchored) regular
+    expressions sit in single literals and the token structure does not depend on them. The operators come from the
+    regenerated tables `Gen.PromSelect`; their closedness is decided over the tables. -/
+theorem fpquery_closed (table : String) (fromDate : Bytes) (tp : Int) (ms : List Prom.Matcher) (q : Prom.FpQuery)
+    (ht : rawE (Prom.ascii table) = true) (h : Prom.fingerprintsQuery table fromDate tp ms = some q) :
+    renderSegs q.segs = q.render ∧ safeSegs .normal q.segs = true ∧
+    kinds q.render = kinds (renderSegs (q.segs.map Seg.shape)) := by
+  have hq : q.table = table ∧ ∀ c ∈ q.conds, c.wf = true := by
+    unfold Prom.fingerprintsQuery at h
+    cases hc : Prom.condsOf ms with
+    | none => simp [hc] at h
+    | some cs =>
+      simp [hc] at h
+      subst h
+      exact ⟨rfl, Prom.condsOf_wf ms cs hc⟩
+  have hs := ((Prom.FpQuery.closed q (by rw [hq.1]; exact ht) hq.2) .normal rfl).1
+  refine ⟨Prom.FpQuery.render_segs q, hs, ?_⟩
+  rw [← Prom.FpQuery.render_segs q]
+  exact render_structure_invariant _ hs
+
+/-- the bounds of the raw-sample scan: two integers, closed for all values -/
+theorem scan_closed (f t : Int) :
+    renderSegs (Prom.scanSegs f t) = Prom.renderScan f t ∧ safeSegs .normal (Prom.scanSegs f t) = true :=
+  ⟨Prom.render_scanSegs f t, ((Prom.scan_closed f t) .normal rfl).1⟩
+
+/-- **pquery_closed.** The Pyroscope label selector (`StreamSelectorPlanner`): for every closed table name and EVERY
+    selector list the planner accepts — pseudo-labels (field expressions from `Gen.ProfSelect`, decided closed over the
+    table) and ordinary labels alike — the text is a segment list well formed for its leaves: label names, values,
+    regular expressions and the date bounds sit in single literals. -/
+theorem pquery_closed (table : String) (fromDate toDate : Bytes) (ss : List Prof.Selector) (q : Prof.PQuery)
+    (ht : rawE (Prom.ascii table) = true) (h : Prof.plan table fromDate toDate ss = some q) :
+    renderSegs q.segs = q.render ∧ safeSegs .normal q.segs = true ∧
+    kinds q.render = kinds (renderSegs (q.segs.map Seg.shape)) := by
+  have hq := Prof.plan_wf table fromDate toDate ss q h
+  have hs := ((Prof.PQuery.closed q (by rw [hq.1]; exact ht) hq.2.1 hq.2.2) .normal rfl).1
+  refine ⟨Prof.PQuery.render_segs q, hs, ?_⟩
+  rw [← Prof.PQuery.render_segs q]
+  exact render_structure_invariant _ hs
+
+/-! ## The parameters of `| json label="path"` -/
+
+/-- **json_params_closed.** The object that renders the parameters of the LogQL json parser (`sqlJsonParser`): for
+    every closed column text, EVERY list of labels and EVERY list of paths — a path part may be any byte string: a
+    field name beginning with a digit, containing quotes, brackets, comment openers — the text is well formed for
+    its leaves: each label and each part is one literal. The model writes every part as a leaf; that the code does
+    (`(sql.NewStringVal(part)).String` is the only thing assigned in the loop of `path2Sql`) is the regenerated fact
+    `Gen.JsonParser.partsEscaped`, whose extractor fails closed on any other loop body, and the `jsonparser` stream
+    compares the model's text with the real object's. -/
+theorem json_params_closed (col : Bytes) (hc : rawE col = true) (id : Nat) (labels : List Bytes) (paths : List (List Bytes)) :
+    safeSegs .normal (LogQL.jsonParserSegs col id labels paths) = true ∧
+    Gen.JsonParser.partsEscaped = true ∧ Gen.JsonParser.labelsEscaped = true :=
+  ⟨((LogQL.jsonParserSegs_closed col hc id labels paths) .normal rfl).1, rfl, rfl⟩
+
+/-- the grammar-field inventory has no duplicate entry (a key identifies one coverage obligation of the `grammar` stream) -/
+theorem grammar_fields_distinct : (Gen.grammarFields.map (fun (l, s, f, _, _) => (l, s, f))).Nodup := by decide +kernel
+
 /-- the parameter inventory has no duplicate entry (a key identifies one taint obligation) -/
 theorem inventory_keys_distinct : Gen.params.Nodup := by decide +kernel
 
@@ -333,6 +410,15 @@ example : ∀ X, TraceQL.plan exTCtx exScript = .ok X → safeSegs .normal (segs
   fun X h => (plan_closed_traceql exTCtx exTCtxOK exScript X h).1
 example : (match TraceQL.planValues exTCtx "tempo_traces_kv" [39, 92] (exScript.take 1) with | .ok _ => true | .error _ => false) = true := by
   decide +kernel
+
+-- `fpquery_closed` / `pquery_closed`: accepted matcher / selector lists with hostile names and values
+example : ∃ q, Prom.fingerprintsQuery "time_series_gin" [50] 2
+    [⟨[39, 45, 45], .eq, [92, 39]⟩, ⟨[97], .nre, [39, 41, 59]⟩] = some q := ⟨_, rfl⟩
+example : rawE (Prom.ascii "`qryn`.profiles_series_gin_dist") = true := by decide +kernel
+example : (Prof.plan "profiles_series_gin" [50] [51]
+    [⟨[95, 95, 110, 97, 109, 101, 95, 95], .eq, [39]⟩, ⟨[39, 92], .re, [47, 42]⟩]).isSome = true := by decide +kernel
+-- `json_params_closed`: a field name that begins with a digit and closes a call
+example := json_params_closed (b "string") (by decide +kernel) 0 [[120]] [[[48, 39, 41, 32, 45, 45], [97]], []]
 -- the string leaves of the nodes added for the TraceQL and the LogQL metric planners (`anyIfNum`, `mapAt`,
 -- `mapFilterKeys`) with hostile keys
 example : safeSegs .normal (segsExpr (.callT "bitAnd" [.anyIfNum [39, 92], .mapAt (.raw "labels") [39, 45, 45],
